@@ -26,6 +26,7 @@ that case on the real code (finding F49 on the pinned tree).
 -/
 import Wz.Proofs.C07_Ctl
 import Wz.Gen.Shapes
+import Wz.Model.Blocking
 
 namespace Wz.C07
 open Wz.Model.Ctl Wz.Gen.Close
@@ -241,5 +242,48 @@ code classify `ctx.Err()` - which is `Canceled` / `DeadlineExceeded` whatever ap
 theorem context_errors_classified_by_Err :
     Wz.Gen.Shapes.get "c07.watcher_cases" = some "errors.Is(ctx.Err(), context.Canceled) ;; errors.Is(ctx.Err(), context.DeadlineExceeded)" ∧
     Wz.Gen.Shapes.get "c07.ctxerr_cases" = some "errors.Is(ctx.Err(), context.Canceled) ;; errors.Is(ctx.Err(), context.DeadlineExceeded)" := by decide
+
+
+/-! ## a guest that blocks instead of cycling (`memory.atomic.wait32/64`) -/
+
+open Wz.Model.Blocking in
+/-- A wait that listens to the cause returns no later than the cause fires - whatever the guest's timeout and
+whether or not anybody notifies. -/
+theorem blocked_guest_stops_when_wait_listens (s : Sources) (hs : s.stop = true) (sc : Scenario) (t : Nat)
+    (hc : sc.stopAt = some t) : ∃ r, returnsAt s sc = some r ∧ r ≤ t := by
+  unfold returnsAt
+  simp only [gate, hs, hc, if_true]
+  obtain ⟨r1, h1, l1⟩ := minOpt_le_right (if s.timeout = true then sc.timeout else none) t
+  rw [h1]
+  obtain ⟨r2, h2, l2⟩ := minOpt_le_right (if s.notify = true then sc.notifyAt else none) r1
+  exact ⟨r2, h2, Nat.le_trans l2 l1⟩
+
+open Wz.Model.Blocking in
+/-- The pinned tree's wait does not depend on the cause at all … -/
+theorem blocked_guest_asIs_ignores_cause (sc : Scenario) (x : Option Nat) :
+    returnsAt asIs { sc with stopAt := x } = returnsAt asIs sc := by
+  simp [returnsAt, asIs, gate]
+
+open Wz.Model.Blocking in
+/-- … so it is parked forever exactly when the guest passed timeout -1 and nobody notifies (finding F49; the
+5-minute variant of hc07 returns at its own timeout, far beyond "promptly"). -/
+theorem blocked_guest_asIs_parked_forever_iff (sc : Scenario) :
+    returnsAt asIs sc = none ↔ sc.timeout = none ∧ sc.notifyAt = none := by
+  simp [returnsAt, asIs, gate, minOpt_eq_none]
+  exact And.comm
+
+open Wz.Model.Blocking in
+/-- F49 witness: cause fires at 3, timeout -1, nobody notifies: the as-is wait never returns, a listening one
+returns at 3. -/
+theorem blocked_guest_witness :
+    returnsAt asIs ⟨none, none, some 3⟩ = none ∧ returnsAt repaired ⟨none, none, some 3⟩ = some 3 := by decide
+
+/-- **Regenerated obligation** (wasm/memory.go `MemoryInstance.wait`): the channel receives the parked guest
+listens to are either exactly those of the pinned tree (model `Blocking.asIs`: finding F49 applies and hc07's
+blocked stage must see the hang) or include a `Done()` channel (model `Blocking.repaired`). -/
+theorem wait_sources_known :
+    (Wz.Gen.Shapes.get "c07.wait_wakeups" = some "<-ready ;; <-ready ;; <-time.After(time.Duration(timeout))" ∧
+      Wz.Gen.Shapes.get "c07.wait_listens_done" = some "false") ∨
+    Wz.Gen.Shapes.get "c07.wait_listens_done" = some "true" := by decide
 
 end Wz.C07
